@@ -588,6 +588,8 @@ def main(pid, tier, repo=None):
         rule_layout(ctx)
         fieldrange.run(ctx, LIB_CRATES, only_crates=("jxl_jbr", "jxl_oxide"))
         searchunwrap.run(ctx, ["jxl_jbr"], floor=20)
+        from . import fixguards
+        fixguards.run(ctx, pid)
     specconst.run(ctx, pid)
     ctx.not_decided("byte equality of the reconstructed JPEG with the original (Huffman re-encoding, marker replay, integer chroma-from-luma, "
                     "padding bits): value-level")
